@@ -11,6 +11,7 @@ mkdir -p "$B/lib" "$B/bin" "$B/obj"
 case $FLAVOUR in
   plain) CXXF="-O1 -g1 -DNDEBUG"; LDF="" ;;
   asan)  CXXF="-O1 -g1 -DNDEBUG -fsanitize=address,undefined -fno-sanitize-recover=undefined -fno-omit-frame-pointer -D_GLIBCXX_ASSERTIONS -DBOOST_ENABLE_ASSERT_HANDLER"; LDF="-fsanitize=address,undefined" ;;
+  cov)   CXXF="-O0 -g1 -DNDEBUG --coverage"; LDF="--coverage" ;;
   *) echo "unknown flavour $FLAVOUR" >&2; exit 2 ;;
 esac
 # the project overwrites CMAKE_CXX_FLAGS, so instrumentation goes through a custom build type
